@@ -333,7 +333,8 @@ def finish(a, cfg, hs, results, extra, seed, t0):
     if len(obligations) == 0:
         print("CHECKER-ERROR no obligations generated (vacuous run)")
         return 3
-    if missing_covers:
+    if missing_covers and not violations and not unknown and not undecided:
+        # (with refuted or undecided obligations the paths behind them were never explored: that is a verdict, not vacuity)
         print("CHECKER-ERROR vacuity guard: covers not reached: %s" % ", ".join(missing_covers))
         return 3
     rc = 0
